@@ -372,3 +372,6 @@ def run(ctx, led):
     run_rule(led, "U12", "label TABLE of the recursive nogood minimiser", u12, ctx)
     from . import C07 as _C07
     run_rule(led, "U13", "no-learning resolver: the flipped decision carries a reason covering every earlier decision level (shared with C07-J7)", _C07.j7, ctx)
+    from . import watchrules
+    run_rule(led, "U14", "WAKE: each watcher loop of the nogood propagator looks at exactly the watchers whose predicate became true (decided on all old/new domain pairs of a 5-value universe)", watchrules.wake, ctx)
+    run_rule(led, "U15", "READD: loops that copy nogood watchers back run to the number of watchers", watchrules.readd, ctx)
